@@ -231,6 +231,9 @@ func (g *grpcClient) NewConn(
 	spec Spec,
 	header http.Header,
 ) StreamingClientConn {
+	// The header map may belong to a Request that was sent before: a timeout
+	// left over from that call must not outlive its deadline.
+	delete(header, grpcHeaderTimeout)
 	if deadline, ok := ctx.Deadline(); ok {
 		if encodedDeadline, err := grpcEncodeTimeout(time.Until(deadline)); err == nil {
 			// Tests verify that the error in encodeTimeout is unreachable, so we
